@@ -112,7 +112,9 @@ def pow2 (n : Nat) : Rat := mkRat 1 (2 ^ n)
 /-- verdict on one metric: raw values, and the implementation's retained list, min, mean, max -/
 def judgeStats (vals rv : List Bits) (mn mean mx : Bits) : String :=
   if vals.isEmpty then "no-values"
-  else if vals.any (fun v => !isFinite v) then "ok"     -- non-finite inputs: correspondence only
+  else if vals.any (fun v => !isFinite v) then
+    -- non-finite inputs: the fence is judged by the correspondence only, but NaN is never inside a fence
+    (if rv.any isNaN then "nan-retained" else "ok")
   else
     let qs := vals.map toRat
     let s := sortQ qs
